@@ -1129,6 +1129,10 @@ class ECDHKeyExchange(RawDHKeyExchange):
             abstractPoint = ecdsa.ellipticcurve.AbstractPoint()
             point = abstractPoint.from_bytes(
                 curve.curve, peer_share, valid_encodings=valid_point_formats)
+            # coordinates must be reduced field elements, not aliases
+            if not (0 <= point[0] < curve.curve.p() and
+                    0 <= point[1] < curve.curve.p()):
+                raise TLSIllegalParameterException("Invalid ECC point")
             ecdhYc = ecdsa.ellipticcurve.Point(
                 curve.curve, point[0], point[1])
 
@@ -1138,9 +1142,12 @@ class ECDHKeyExchange(RawDHKeyExchange):
             raise TLSDecodeError("Empty point formats extension")
         if isinstance(private, ecdsa.keys.SigningKey):
             ecdh = ecdsa.ecdh.ECDH(curve=curve, private_key=private)
-            ecdh.load_received_public_key_bytes(peer_share,
-                                                valid_encodings=
-                                                valid_point_formats)
+            try:
+                ecdh.load_received_public_key_bytes(peer_share,
+                                                    valid_encodings=
+                                                    valid_point_formats)
+            except ecdsa.keys.MalformedPointError:
+                raise TLSIllegalParameterException("Invalid ECC point")
             return bytearray(ecdh.generate_sharedsecret_bytes())
         S = ecdhYc * private
 
